@@ -228,6 +228,69 @@ func findTraversals(c *Check) []traversal {
 			}
 		}
 	}
+	// (c) worklist fed through a helper: the helper ranges over adjacency and returns the neighbours that
+	// still have to be visited; its caller appends them to the list it pops from. The helper's append is
+	// the push: the never-seen test and the mark belong there.
+	for _, fn := range c.P.Funcs {
+		if !(engine.InPackage(fn, "dag") || engine.InPackage(fn, "selection") || engine.InPackage(fn, "analysis") || engine.InPackage(fn, "cmd") || engine.InPackage(fn, "execution") || engine.InPackage(fn, "hashing")) {
+			continue
+		}
+		if fn.Signature.Results().Len() == 0 {
+			continue
+		}
+		if _, isSlice := fn.Signature.Results().At(0).Type().Underlying().(*types.Slice); !isSlice {
+			continue
+		}
+		// result spread into an append inside a loop of a caller
+		feedsWorklist := false
+		for _, cs := range c.G.CallersOf(fn) {
+			v := cs.Value()
+			if v == nil || cs.Parent() == fn {
+				continue
+			}
+			var results []ssa.Value
+			if fn.Signature.Results().Len() == 1 {
+				results = append(results, v)
+			} else {
+				for _, ref := range *v.Referrers() {
+					if ex, ok := ref.(*ssa.Extract); ok && ex.Index == 0 {
+						results = append(results, ex)
+					}
+				}
+			}
+			for _, r := range results {
+				for _, ref := range *r.Referrers() {
+					if call, ok := ref.(*ssa.Call); ok {
+						if bi, ok := call.Call.Value.(*ssa.Builtin); ok && bi.Name() == "append" && len(call.Call.Args) == 2 && call.Call.Args[1] == r && engine.InLoop(call) {
+							feedsWorklist = true
+						}
+					}
+				}
+			}
+		}
+		if !feedsWorklist {
+			continue
+		}
+		for _, lp := range engine.LoopsOf(fn) {
+			r := lp.RangedValue()
+			if r == nil || !isAdjacency(c, r, 0) {
+				continue
+			}
+			for b := range lp.Body {
+				for _, in := range b.Instrs {
+					call, ok := in.(*ssa.Call)
+					if !ok {
+						continue
+					}
+					bi, ok := call.Call.Value.(*ssa.Builtin)
+					if !ok || bi.Name() != "append" || !types.Identical(call.Type(), fn.Signature.Results().At(0).Type()) {
+						continue
+					}
+					out = append(out, traversal{Fn: fn, Loop: lp, Site: call, Kind: "recursion"})
+				}
+			}
+		}
+	}
 	sort.Slice(out, func(i, j int) bool {
 		a, b := c.P.FuncName(out[i].Fn), c.P.FuncName(out[j].Fn)
 		if a != b {
